@@ -1117,3 +1117,26 @@ Section Proofs.
     exists ans, a', e'. auto.
   Qed.
 End Proofs.
+
+(* ---- the constructor: Backend::Size(initial_size, 1.4) + RoundBuckets yields a power of two ----
+   checked by computation for every initial_size below 2048 (the model of the float product is the exact
+   rational; the harness compares the real constructor for a range of sizes on every run) *)
+Definition pow2_exponent_of (nb : N) : option N :=
+  List.find (fun e => nb =? 2 ^ e) (map N.of_nat (seq 0 16)).
+
+Lemma constructor_sizes_checked :
+  forallb (fun n => match pow2_exponent_of (initial_buckets n) with Some _ => true | None => false end)
+          (map N.of_nat (seq 0 2048)) = true.
+Proof. vm_compute. reflexivity. Qed.
+
+Theorem constructor_is_pow2 (V : Type) (v0 : V) (n : N) : n < 2048 ->
+  exists e, auto_init_n V v0 n = init_pow2 V v0 e.
+Proof.
+  intros Hn. pose proof constructor_sizes_checked as H. rewrite forallb_forall in H.
+  specialize (H n). destruct (pow2_exponent_of (initial_buckets n)) as [e|] eqn:E.
+  - exists e. unfold pow2_exponent_of in E. apply find_some in E. destruct E as [_ E]. apply N.eqb_eq in E.
+    unfold auto_init_n, init_pow2. rewrite E. reflexivity.
+  - assert (Hin : In n (map N.of_nat (seq 0 2048))).
+    { apply in_map_iff. exists (N.to_nat n). split; [lia|]. apply in_seq. lia. }
+    specialize (H Hin). discriminate.
+Qed.
